@@ -41,6 +41,7 @@ type hObs struct {
 	FreshDialInOKAfterExp *bool    `json:"fresh_dial_in_ok_after_expiry,omitempty"` // a fresh third node (same IP) dials A 3.2 s after the refusals
 	DialInOKAfterExpiry   *bool    `json:"dial_in_ok_after_expiry,omitempty"`       // B itself, once its own 5 s libp2p dial backoff is over
 	DialInErrAfterExp     *string  `json:"dial_in_err_after_expiry,omitempty"`
+	DialOutOKAfterExpiry  *bool    `json:"dial_out_ok_after_expiry,omitempty"` // A dials a fresh fourth node on the same IP after the expiry
 	ScoreAfterExpiry      *int     `json:"score_after_expiry,omitempty"`
 	GatesAfterExpiry      *[6]bool `json:"gates_after_expiry,omitempty"`
 }
@@ -251,7 +252,7 @@ func runHosts(name string) (rec hRec) {
 		sendRaw(true, p2p.VerifC18EncodeResponse("some-id", "nosuch", []byte("x")))
 	case "rate_excess":
 		ok := 0
-		for i := 0; i < 5; i++ {
+		for i := 0; i < 4; i++ { // the 4th message exceeds the limit of 3
 			_, err := b.Request(ctx, a.ID(), "ping", []byte("x"), 500*time.Millisecond)
 			if err == nil {
 				ok++
@@ -326,6 +327,17 @@ func runHosts(name string) (rec hRec) {
 	site = "Connect(C->A, expiry)"
 	err = connect(c, a)
 	obs.FreshDialInOKAfterExp = bp(err == nil && poll(time.Second, func() bool { return a.IsConnected(c.ID()) }))
+	// outbound direction after the expiry: A dials a fresh node on the (previously banned) IP
+	site = "VerifC18NewNode(D)"
+	d, err := p2p.VerifC18NewNode(listen, time.Second, 50*time.Millisecond, 0, nil, []p2p.VerifC18Handler{ping})
+	if err != nil {
+		rec.Err = "D: " + err.Error()
+		return rec
+	}
+	defer d.Close()
+	site = "Connect(A->D, expiry)"
+	err = connect(a, d)
+	obs.DialOutOKAfterExpiry = bp(err == nil && poll(time.Second, func() bool { return a.IsConnected(d.ID()) }))
 	// B's swarm keeps a 5 s dial backoff on A's address after the refused dial; wait it out
 	if d := time.Until(tDial.Add(5300 * time.Millisecond)); d > 0 {
 		time.Sleep(d)
